@@ -68,3 +68,30 @@ Definition pump_case_ok (c : list bool * (N * N)) : bool :=
 
 Definition pump_mismatches (cs : list (N * (list bool * (N * N)))) : list N :=
   map fst (filter (fun ic => negb (pump_case_ok (snd ic))) cs).
+
+(** The run builtin around the pump (project_builtins.go): a run with a callback swaps the project's listener for a fresh
+    pump and -- [restore] -- puts the previous listener back when the run returns; the pump is closed by then.  A run
+    without a callback reports to the current listener; a closed pump receives nothing (the send panics).  State: the
+    current listener and what the project's own listener has received so far; a run is (has a callback?, its stream). *)
+Inductive lst := LBase | LClosed.
+
+Section Session.
+  Context {A : Type}.
+  Definition run1 (restore : bool) (st : lst * list A) (r : bool * list A) : lst * list A :=
+    let '(cur, got) := st in
+    if fst r then ((if restore then cur else LClosed), got)
+    else match cur with LBase => (LBase, got ++ snd r) | LClosed => (LClosed, got) end.
+  Definition session (restore : bool) (runs : list (bool * list A)) : lst * list A :=
+    fold_left (run1 restore) runs (LBase, []).
+  Definition plain_streams (runs : list (bool * list A)) : list A :=
+    concat (map snd (filter (fun r => negb (fst r)) runs)).
+End Session.
+
+(** correspondence: per scenario of the harness its runs (callback?, events sent) and the number of events the project's
+    own listener received over the whole scenario *)
+Definition session_case_ok (c : list (bool * N) * N) : bool :=
+  let runs := map (fun r : bool * N => (fst r, repeat tt (N.to_nat (snd r)))) (fst c) in
+  (N.of_nat (length (snd (session true runs))) =? snd c)%N.
+
+Definition session_mismatches (cs : list (N * (list (bool * N) * N))) : list N :=
+  map fst (filter (fun ic => negb (session_case_ok (snd ic))) cs).
